@@ -12,10 +12,11 @@ from .. import gens
 from ..harness import digest
 
 MANIFEST = {
-    'text': 'Held on every call executed: emd.cycles.get_cycle_vector is run on EVERY sequence of length 2..6 (quick) / 2..8 (thorough) over a 5-value phase alphabet x phase_step in {pi, 1.5pi, 1.9pi} x return_good in {False, True} (so every placement of wraps including the first and last sample), on stacked multi-column inputs, and on seeded long synthetic phases with variable, noisy and occasionally reversing frequency; the all-cycles labelling must equal the wrap-delimited partition exactly and good-cycle labelling must never raise and must consist of whole segments numbered consecutively. Exhaustive at the stated bound, sampling beyond.',
+    'text': 'Held on every call executed: emd.cycles.get_cycle_vector is run on EVERY sequence of length 2..6 (quick) / 2..8 (thorough) over a 5-value phase alphabet x phase_step in {pi, 1.5pi, 1.9pi} (and 0 for length <= 5) x return_good in {False, True} (so every placement of wraps including the first and last sample), on stacked multi-column inputs, and on seeded long synthetic phases with variable, noisy and occasionally reversing frequency; the all-cycles labelling must equal the wrap-delimited partition exactly and good-cycle labelling must never raise and must consist of whole segments numbered consecutively. Exhaustive at the stated bound, sampling beyond.',
     'note': 'Trusted: numpy. Which segments count as good is C13\'s business; here only the partition structure is judged for return_good=True.',
     'technique': 'reference-partition oracle on the real get_cycle_vector, exhaustive small-scope enumeration + seeded random',
 }
+LOGGER_ON_ODD_SHARDS = True
 BUDGET_S = {'quick': 60, 'thorough': 420}
 MAXLEN = {'quick': 6, 'thorough': 8}
 NRANDOM = {'quick': 1500, 'thorough': 20000}
@@ -29,6 +30,7 @@ ASSUMPTIONS = ['phases are in [0, 2pi) so the library does not re-wrap them']
 
 ALPHA = (0.05, 1.4, 3.1, 4.9, 6.2)
 STEPS = (np.pi, 1.5 * np.pi, 1.9 * np.pi)
+RSTEPS = STEPS + (0.0, 0.5, 2 * np.pi)     # random part: also the extreme thresholds (0: every change of phase is a wrap)
 
 
 def ref_partition(phi, phase_step):
@@ -120,6 +122,8 @@ def run_shard(ctx):
             phi = np.array(seq)
             for st in STEPS:
                 check(ctx, phi, st, {'kind': 'seq', 'phase': phi, 'phase_step': st}, 'enum')
+            if L <= 5:
+                check(ctx, phi, 0.0, {'kind': 'seq', 'phase': phi, 'phase_step': 0.0}, 'enum0')
             if idx < 40 and ctx.shard == 0:
                 ctx.sample({'phase': list(seq), 'phase_steps': list(STEPS)})
     ctx.count('exhaustive_done')
@@ -129,7 +133,7 @@ def run_shard(ctx):
             break
         r = rng.random()
         phi = gens.synthetic_phase(rng, noise=(0.0 if r < .4 else float(rng.uniform(0, .3))), reversals=bool(r > .6))
-        st = float(gens.pick(rng, list(STEPS)))
+        st = float(gens.pick(rng, list(RSTEPS)))
         if rng.random() < .25:
             phi, _ = gens.relayout(rng, phi, 'strided')     # same values in a strided view
             ctx.count('strided_inputs')
